@@ -141,10 +141,30 @@ func Concrete(c cellJSON, k int, variant int, rng *rand.Rand) string {
 		if variant > 1 {
 			sep, col = " ,\t", " : "
 		}
+		if variant > 2 { // the same strings spelled with JSON escapes: names and values are compared as values, not as bytes
+			for i := range kv {
+				switch kv[i][1] {
+				case `"h"`:
+					kv[i][1] = `"\u0068"`
+				case `"2.0"`:
+					kv[i][1] = `"2\u002e0"`
+				case `"rpc.serverInfo"`:
+					kv[i][1] = `"rpc\u002eserverInfo"`
+				case `"rpc.nope"`:
+					kv[i][1] = `"\u0072pc.nope"`
+				}
+				switch kv[i][0] {
+				case "method":
+					kv[i][0] = `m\u0065thod`
+				case "id":
+					kv[i][0] = `\u0069d`
+				}
+			}
+		}
 	}
 	var parts []string
 	for _, p := range kv {
-		parts = append(parts, fmt.Sprintf("%q%s%s", p[0], col, p[1]))
+		parts = append(parts, fmt.Sprintf("\"%s\"%s%s", p[0], col, p[1]))
 	}
 	return "{" + strings.Join(parts, sep) + "}"
 }
